@@ -5,7 +5,8 @@ from harness.core import cbool, clist, copt, cz, czlist
 
 ID = "C15"
 MODEL_TARGETS = ["C15/Cases.vo"]
-PROOF_TARGETS = ["C15/Proofs.vo", "C15/Refuted.vo"]
+PROOF_TARGETS = ["C15/Lemmas.vo", "C15/Proofs.vo", "C15/Long.vo", "C15/Paths.vo", "C15/Main.vo",
+                 "C15/Refuted.vo"]
 OBLIGATION_FILES = ["C15/Refuted.v"]
 PROPS_FILE = "C15/Props.v"
 SHARD = 120
